@@ -7,6 +7,7 @@ package tree
 
 import (
 	"context"
+	"strings"
 	"math"
 
 	"github.com/sdcio/data-server/pkg/cache"
@@ -226,5 +227,61 @@ func VerifBranchPrecedencePrefix() {
 		verifrt.Assert(verifrt.And(lower, hit), "C08-kernel-branch-precedence-counts-only-the-branch/sibling-name-extends-member-name")
 	} else {
 		verifrt.Assert(verifrt.And(lower, hit), "C08-kernel-branch-precedence-counts-only-the-branch")
+	}
+}
+
+// VerifIntendedPathExistsExact (C11): TreeCacheClientImpl.IntendedPathExists over an arbitrary
+// index whose paths are related to the asked one in every textual way - the path itself, a
+// descendant, an ancestor, a sibling leaf whose NAME EXTENDS the asked leaf's name, an entry
+// whose KEY extends the asked entry's key: the answer is "an owner that is not ignored holds
+// exactly this path" - neither something below it nor something that merely begins like it.
+func VerifIntendedPathExistsExact() {
+	asked := []string{"server", "s1", "address"}
+	entries := []*v08IdxEntry{
+		{tag: "self", path: []string{"server", "s1", "address"}},
+		{tag: "self2", path: []string{"server", "s1", "address"}},
+		{tag: "below", path: []string{"server", "s1", "address", "scope"}},
+		{tag: "above", path: []string{"server", "s1"}},
+		{tag: "namext", path: []string{"server", "s1", "address-family"}},
+		{tag: "keyext", path: []string{"server", "s10", "address"}},
+	}
+	owners := []string{"A", "B"}
+	idx := map[string]UpdateSlice{}
+	for _, e := range entries {
+		if !verifrt.Bool("pres." + e.tag) {
+			continue
+		}
+		e.pres = true
+		e.owner = owners[verifrt.Choice("owner."+e.tag, len(owners))]
+		if e.tag == "self2" {
+			for _, e1 := range entries {
+				if e1.tag == "self" && e1.pres {
+					verifrt.Assume(e1.owner != e.owner)
+				}
+			}
+		}
+		key := strings.Join(e.path, KeysIndexSep)
+		idx[key] = append(idx[key], cache.NewUpdate(e.path, nil, 10, e.owner, 0))
+	}
+	c := &TreeCacheClientImpl{datastore: "ds", intendedStoreIndex: idx}
+	var ignore []string
+	if verifrt.Choice("ignore", 2) == 1 {
+		ignore = []string{"A"}
+	}
+	verifrt.MapOrderNondet(true)
+	got, err := c.IntendedPathExists(context.Background(), asked, ignore...)
+	verifrt.MapOrderNondet(false)
+	verifrt.Reach("asked")
+	verifrt.Assert(err == nil, "C11-intended-path-exists/answers")
+	want := false
+	for _, e := range entries {
+		if e.pres && (e.tag == "self" || e.tag == "self2") && !(len(ignore) == 1 && e.owner == "A") {
+			want = true
+		}
+	}
+	if want {
+		verifrt.Assert(got, "C11-intended-path-exists/held-path-found")
+	} else {
+		verifrt.Assert(!got, "C11-intended-path-exists/only-the-exact-path-counts")
 	}
 }
